@@ -296,6 +296,9 @@ class Check(PropertyCheck):
                   "the reference per the specification `matches`), insecure_on_succeeds, the policy facts no_partial_wildcard, wildcard_one_label, cn_ignored, "
                   "ip_exact about the specification, ossl_refines_spec (the transcription of OpenSSL's X509_check_host under NO_PARTIAL_WILDCARDS|"
                   "NEVER_CHECK_SUBJECT accepts nothing the specification rejects), hostflags_are_both (flag values regenerated from the code), and "
+                  "eff_sni_precedence (preset server.sni, else non-empty client SNI, else address), plan_shape (IP -> set1_ip and no SNI extension; host -> SNI == verified "
+                  "name; no reference only with ssl_insecure and an empty name; empty name with verification on -> the hook refuses), "
+                  "ossl_literal_unless_leading_star (patterns not starting with `*` are compared literally), and "
                   "fail_sends_no_appdata (tunnel model of C14: after a handshake error the child is told the error, never success, and no plaintext "
                   "was handed to the TLS engine). Model tied to the real ServerTLSLayer + TlsConfig by real in-memory handshakes over the certificate matrix "
                   "x SNI/address forms x trust configuration; chain validity from cryptography.x509.verification.")
